@@ -70,8 +70,21 @@ var ctxModel = porcupine.Model{
 		case "get":
 			v, ok := st[in.key]
 			return ok == out.ok && v == out.val, state
+		case "eall":
+			// snapshot of the ephemeral properties: exactly the kE registers
+			for k := range st {
+				if !strings.HasPrefix(k, "kE") {
+					delete(st, k)
+				}
+			}
+			return snapString(st) == out.snap, state
 		default:
 			delete(st, "kT") // the timeout is not part of RequestHeaders() as far as this model goes
+			for k := range st {
+				if strings.HasPrefix(k, "kE") { // nor are the ephemeral properties
+					delete(st, k)
+				}
+			}
 			return snapString(st) == out.snap, state
 		}
 	},
@@ -160,6 +173,7 @@ func ctxHarness(rc *RunCtx) {
 		return a || b
 	}
 	valN := 0
+	sharedEph, _ := shared.(frugal.FContextWithEphemeralProperties)
 	finished := false
 	doneC := make(chan int, nTasks)
 	siteDone := simrt.HarnessSite("ctx.task-done")
@@ -217,6 +231,48 @@ func ctxHarness(rc *RunCtx) {
 							getTimeout(t)
 						}
 						_ = k
+					case tp.Intn("eph", 6) == 5 && sharedEph != nil:
+						// ephemeral properties of the shared context: registers kE0..kE2 of the same model, written,
+						// read and copied (what Clone does) by everybody
+						rc.Sim.Count("probe:ephemeral-property-ops-on-the-shared-context")
+						ek := fmt.Sprintf("kE%d", tp.Intn("eph", 3))
+						switch tp.Intn("eph", 3) {
+						case 0:
+							valN++
+							op := ctxOp{client: t, kind: "put", key: ek, val: fmt.Sprintf("ev%d", valN)}
+							seq++
+							op.call = seq
+							sharedEph.AddEphemeralProperty(op.key, op.val)
+							seq++
+							op.ret = seq
+							hist = append(hist, op)
+						case 1:
+							op := ctxOp{client: t, kind: "get", key: ek}
+							seq++
+							op.call = seq
+							v, ok := sharedEph.EphemeralProperty(op.key)
+							seq++
+							op.ret = seq
+							op.ok = ok
+							if ok {
+								op.val, _ = v.(string)
+							}
+							hist = append(hist, op)
+						default:
+							op := ctxOp{client: t, kind: "eall"}
+							seq++
+							op.call = seq
+							all := sharedEph.EphemeralProperties()
+							seq++
+							op.ret = seq
+							op.snapshot = map[string]string{}
+							for k, v := range all {
+								if ks, isS := k.(string); isS {
+									op.snapshot[ks], _ = v.(string)
+								}
+							}
+							hist = append(hist, op)
+						}
 					case k <= 2: // put on the shared context
 						valN++
 						op := ctxOp{client: t, kind: "put", key: fmt.Sprintf("k%d", tp.Intn("ops", 3)), val: fmt.Sprintf("v%d", valN)}
@@ -294,6 +350,11 @@ func ctxHarness(rc *RunCtx) {
 						private.AddRequestHeader(fmt.Sprintf("h%d", i), fmt.Sprintf("x%d", i))
 						private.AddResponseHeader(fmt.Sprintf("r%d", i), "y")
 						private.SetTimeout(time.Duration(1+tp.Intn("ops", 5000)) * time.Millisecond)
+						if k := tp.Intn("oddtmo", 8); k >= 4 {
+							// whatever timeout the original reports - zero, negative, below the wire's resolution - its clone reports too
+							private.SetTimeout([]time.Duration{0, -time.Second, 500 * time.Microsecond, -5 * time.Millisecond}[k-4])
+							rc.Sim.Count("probe:clone-of-a-context-with-a-non-positive-timeout")
+						}
 						pe := private.(frugal.FContextWithEphemeralProperties)
 						pe.AddEphemeralProperty(fmt.Sprintf("e%d", i), i)
 						cl := pe.Clone()
@@ -434,7 +495,7 @@ func ctxHarness(rc *RunCtx) {
 		var ops []porcupine.Operation
 		for _, o := range hist {
 			out := ctxOut{val: o.val, ok: o.ok}
-			if o.kind == "all" {
+			if o.kind == "all" || o.kind == "eall" {
 				out.snap = snapString(o.snapshot)
 			}
 			ops = append(ops, porcupine.Operation{ClientId: o.client, Input: ctxIn{o.kind, o.key, o.val}, Call: o.call, Output: out, Return: o.ret})
